@@ -72,6 +72,58 @@ func main() {
 	if t := os.Getenv("VERIF_TIER"); t != "" && *tier == "" {
 		*tier = t
 	}
+	if *prop == "all" {
+		// development aid: one load per configuration, every property decided from it; prints one line per property
+		var ids []string
+		for k := range registry {
+			ids = append(ids, k)
+		}
+		sort.Strings(ids)
+		cfgs := quickConfigs
+		if *tier == "thorough" {
+			cfgs = thoroughConfigs
+		}
+		runs := map[string]*Run{}
+		for _, id := range ids {
+			runs[id] = NewRun(id, *tier)
+		}
+		for _, c := range cfgs {
+			p, err := Load(*repo, c, true)
+			for _, id := range ids {
+				r := runs[id]
+				if err != nil {
+					r.fatal = append(r.fatal, err.Error())
+					continue
+				}
+				r.cur = p
+				r.Configs = append(r.Configs, c.String())
+				for _, rd := range registry[id].Rules {
+					if !applies(rd, c) {
+						continue
+					}
+					func() {
+						defer func() {
+							if e := recover(); e != nil {
+								r.fatal = append(r.fatal, fmt.Sprintf("rule %s panicked on %s: %v", rd.Name, c, e))
+							}
+						}()
+						rd.Fn(r, p, rd.Name)
+					}()
+				}
+				r.cur = nil
+			}
+		}
+		code := 0
+		var caught []string
+		for _, id := range ids {
+			if rc := runs[id].Finish(*out, 0, registry[id].Explanation, registry[id].Assumptions); rc != 0 {
+				code = 1
+				caught = append(caught, id)
+			}
+		}
+		fmt.Println("ALL caught-by:", strings.Join(caught, " "))
+		os.Exit(code)
+	}
 	def := registry[*prop]
 	if def == nil {
 		var ids []string
